@@ -2,6 +2,8 @@
 // It is mapped into the module by `go build -overlay`; it is not part of the repository.
 package verifrt
 
+import "sync/atomic"
+
 // Hook, when non-nil, is called at every instrumented function entry. The harness sets it (trace recorder for
 // C19 and the conformance checks, scheduling point for C16). It must only be changed while no instrumented code runs.
 var Hook func(id int)
@@ -91,8 +93,14 @@ func Block() bool {
 	return false
 }
 
+// GoCount counts the goroutines the library has started (read by the trace recorders: a trace that contains a
+// goroutine start is only deterministic under the cooperative scheduler).
+var GoCount atomic.Int64
+
 // Go replaces the library's `go` statements.
 func Go(f func()) {
+	GoCount.Add(1)
+
 	if h := GoHook; h != nil {
 		h(f)
 		return
